@@ -105,6 +105,7 @@ func main() {
 	var samples lib.Samples
 	exhaustive := true
 	totalOps := 0
+	confSyscalls, confOps := 0, 0
 	for si, sc := range scs {
 		if r.OutOfTime() {
 			exhaustive = false
@@ -153,6 +154,35 @@ func main() {
 		}
 		ops := readTrace(tf)
 		os.RemoveAll(dry)
+		// seam conformance: the same run under strace; every mutating system call of the plz process below the scenario
+		// directory must be explained by an operation the seam numbered (otherwise crash points are missing from the enumeration)
+		{
+			cdir := filepath.Join(e.Root, "conf")
+			hist.CopyTree(pre, cdir)
+			ctf, sout := filepath.Join(e.Root, "conf.trace"), filepath.Join(e.Root, "conf.strace")
+			wrapper := hist.StraceWrapper(e.Root, plzVos)
+			if o := e.RunWith(wrapper, cdir, src, []string{"VOS_TRACE=" + ctf, "SEAM_STRACE_OUT=" + sout}); o.Exit != 0 {
+				lib.Fatal("seam conformance run failed: exit=%d %s", o.Exit, o.Output)
+			}
+			repoDir := filepath.Join(cdir, "repo")
+			evs, err := hist.ParseStrace(sout, repoDir)
+			if err != nil {
+				lib.Fatal("strace output unreadable: %v", err)
+			}
+			seamOps := hist.ParseSeamTrace(ctf, repoDir)
+			gaps, checked := hist.SeamGaps(evs, seamOps, cdir, []string{filepath.Join(repoDir, "plz-out", "log")})
+			if checked == 0 || len(seamOps) == 0 {
+				lib.Fatal("seam conformance run observed nothing (strace events=%d, seam operations=%d)", len(evs), len(seamOps))
+			}
+			if len(gaps) > 0 {
+				lib.Fatal("SEAM-GAP: %d mutating system calls of plz are not operations of the file-system seam (scenario %s:%s):\n%s", len(gaps), sc.fam.Name(), sc.edits[len(sc.edits)-1], strings.Join(gaps, "\n"))
+			}
+			confSyscalls += checked
+			confOps += len(seamOps)
+			os.RemoveAll(cdir)
+			os.Remove(ctf)
+			os.Remove(sout)
+		}
 		totalOps += len(ops)
 		type job struct {
 			k    int
@@ -237,7 +267,7 @@ func main() {
 
 	r.Assume = []string{
 		"crash model = process death (SIGKILL): every prefix of the sequence of mutating file-system operations is a reachable disk state, the page cache survives; additionally the file being written at the moment of death may be half written (tear). No power-loss reordering.",
-		"the seam covers os.* and xattr.* calls of src/fs, src/cache, src/build, src/core, src/test; the seamed binary's outputs are asserted equal to the plain binary's on every scenario (dry run)",
+		"the seam covers os.* and xattr.* calls of src/fs, src/cache, src/build, src/core, src/test; the seamed binary's outputs are asserted equal to the plain binary's on every scenario (dry run), and on every scenario one run under strace asserts that every successful mutating system call of the plz process below the scenario directory (plz-out/log excepted: log files are not build state) is explained by a numbered seam operation",
 		"-n 1; the order in which independent targets are built still varies between runs, so crash point k is the k-th operation of that run (taken from its own trace); k ranges over the length of a dry run, and the distinct operations actually crashed at are counted in the evidence",
 		"build commands themselves (bash) are not crashed mid-way: their writes go to the target's temporary directory, which every build wipes before use",
 	}
@@ -247,7 +277,7 @@ func main() {
 		Rule:               "for each scenario (first build of two repository families; rebuild after single edits) every mutating file-system operation k of the build: kill before k (and torn-write variant), then recover; plus every crash point of fs.WriteFile over old/new contents; non-trivial = the process really died at the crash point",
 		Samples:            samples.List(),
 		Exhaustive:         exhaustive,
-		Extra:              map[string]any{"scenarios": len(scs), "scenarios_skipped_because_the_uninterrupted_incremental_build_already_differs_from_clean": skipped, "fs_operations_in_dry_runs": totalOps, "recovered_equal_to_clean": recovered, "distinct_operations_crashed_at": len(distinctOps), "writefile_crash_points": wfEvals, "writefile_ops": wfOps},
+		Extra:              map[string]any{"scenarios": len(scs), "scenarios_skipped_because_the_uninterrupted_incremental_build_already_differs_from_clean": skipped, "fs_operations_in_dry_runs": totalOps, "recovered_equal_to_clean": recovered, "distinct_operations_crashed_at": len(distinctOps), "seam_conformance_syscalls_checked_against_strace": confSyscalls, "seam_conformance_seam_operations": confOps, "writefile_crash_points": wfEvals, "writefile_ops": wfOps},
 	})
 }
 
